@@ -8,9 +8,9 @@
     column reaching the top of layer 1) and FinalTrim.v [in_class_trunc] (no column need reach it);
     [cn_ok]: ANY iteration order of the connection_name sets; [heading_spec]: the heading function normalises
     positive multiples of unit vectors (met by the executable [heading_exact]). *)
-From Coq Require Import List Bool Arith ZArith QArith Qcanon.
+From Coq Require Import List Bool Arith ZArith QArith Qcanon Qabs.
 From PTBase Require Import Exn.
-From P Require Import Rectgeo GeoFacts Forward Main Regen Final Heading Trim FinalTrim FileSim FileGrid FinalFile Witness.
+From P Require Import Rectgeo GeoFacts Forward Main Regen Final Heading Trim FinalTrim FileSim FileGrid FinalFile Witness RndAcc RndFile.
 Import ListNotations.
 Open Scope Qc_scope.
 
@@ -216,3 +216,29 @@ Theorem data_file_class_inhabited : exists r,
   r_dx r = [q 1; q 2] /\ r_dy r = [q 3; q 1] /\ r_dz r = [q 1; q 2].
 Proof. exact w5_after_file. Qed.
 Print Assumptions data_file_class_inhabited.
+
+(** ** accuracy of the fixed-format field itself (FileGrid.v [rnd]; round 6).  The integer rounding (half to even)
+    is within 1/2 of its argument, for every rational; hence the d-digit decimal [rnd_pos d x] printed by '%e' is
+    within half a unit of the last kept digit of the mantissa/exponent pair (m, e) found by [normalise]. *)
+Theorem round_half_even_error : forall x : Q, (Qabs (inject_Z (round_half_even x) - x) <= 1 # 2)%Q.
+Proof. exact round_half_even_error_lemma. Qed.
+Print Assumptions round_half_even_error.
+Theorem rnd_pos_half_unit_last_digit : forall (d : nat) (x m : Q) (e : Z),
+  normalise (S (Z.to_nat (Z.log2 (Qnum x) + Z.log2 (Zpos (Qden x)) + 2)%Z)) x 0 = (m, e) ->
+  (Qabs (rnd_pos d x - (m * pow10 (Z.of_nat d - 1)) * pow10 (e - (Z.of_nat d - 1))) <= (1 # 2) * pow10 (e - (Z.of_nat d - 1)))%Q.
+Proof. exact rnd_pos_half_ulp_lemma. Qed.
+Print Assumptions rnd_pos_half_unit_last_digit.
+(** hence the relative accuracy of the d-digit field: 10^(1-d)/2 (5e-5 for '%10.4e'), whenever the mantissa found by
+    [normalise] is at least 1 (it is unless the fuel, log2 of numerator + log2 of denominator + 3 steps, runs out;
+    not proved here) -- and the spacing rectgeo recovers from a standard data file is within 5e-5 of the original,
+    which discharges the accuracy hypothesis of [file_spacing_error] with eps = 1/20000 *)
+Theorem rnd_pos_relative_error : forall (d : nat) (x m : Q) (e : Z),
+  normalise (S (Z.to_nat (Z.log2 (Qnum x) + Z.log2 (Zpos (Qden x)) + 2)%Z)) x 0 = (m, e) -> (1 <= m)%Q ->
+  (Qabs (rnd_pos d x - x) <= (1 # 2) * pow10 (1 - Z.of_nat d) * x)%Q.
+Proof. exact rnd_pos_relative_error_lemma. Qed.
+Print Assumptions rnd_pos_relative_error.
+Theorem file_spacing_accuracy : forall (d : Qc) (m : Q) (e : Z), 0 < d ->
+  normalise (S (Z.to_nat (Z.log2 (Qnum (this (d * half))) + Z.log2 (Zpos (Qden (this (d * half)))) + 2)%Z)) (this (d * half)) 0 = (m, e) -> (1 <= m)%Q ->
+  d - Q2Qc (1 # 20000) * d <= file_spacing d /\ file_spacing d <= d + Q2Qc (1 # 20000) * d.
+Proof. exact file_spacing_accuracy_lemma. Qed.
+Print Assumptions file_spacing_accuracy.
